@@ -166,6 +166,116 @@ def walk_sd(cpu, mva, iswrite):
     return dict(pa=pa, domain=domain, level=1, ap=ap, texcb=texcb, s=s_bit)
 
 
+def mem_type_from_mair(cpu, attrindx, hyp):
+    """MAIRn.Attr<indx> -> Normal / Device / SO (B4.1.104); encodings that are IMPLEMENTATION DEFINED or need the
+    transient hint are not judged"""
+    s = cpu.s
+    mair = ((s['hmair1'] << 32) | s['hmair0']) if hyp else ((s['mair1'] << 32) | s['mair0'])
+    attr = (mair >> (8 * attrindx)) & 0xFF
+    hi, lo = attr >> 4, attr & 0xF
+    if hi == 0:
+        if lo == 0:
+            return 'so'
+        if lo == 4:
+            return 'device'
+        raise RefUnpredictable('MAIR attribute 0000:%s' % bin(lo))
+    if hi in (1, 2, 3) or (hi >> 2 == 1 and hi & 3):
+        raise RefNotModelled('MAIR transient / IMPLEMENTATION DEFINED attribute')
+    if lo == 0:
+        raise RefUnpredictable('MAIR inner attribute 0000 with a Normal outer attribute')
+    if lo in (1, 2, 3, 5, 6, 7):
+        raise RefNotModelled('MAIR inner transient attribute')
+    return 'normal'
+
+
+def walk_ld_s1(cpu, ia, iswrite):
+    """long-descriptor stage-1 translation table walk (B3.6, B3.19 TranslationTableWalkLD with stage1 = TRUE)
+    -> dict(pa, level, ap, memtype)"""
+    s = cpu.s
+    hyp = cpu.mode == M_HYP
+    found = False
+    disabled = False
+    M40 = (1 << 40) - 1
+    if hyp:
+        lookup_secure = False
+        t0 = s['htcr'] & 7
+        if t0 == 0 or (ia >> (32 - t0)) == 0:
+            level = 1 if t0 < 2 else 2
+            lb = 9 * level - t0 - 4
+            ttbr = s['httbr'] & M40
+            found = True
+            startbit = 31 - t0
+    else:
+        lookup_secure = cpu.is_secure()
+        ttbcr = s['ttbcr']
+        t0 = ttbcr & 7
+        t1 = (ttbcr >> 16) & 7
+        if t0 == 0 or (ia >> (32 - t0)) == 0:
+            level = 1 if t0 < 2 else 2
+            lb = 9 * level - t0 - 4
+            ttbr = s['ttbr0_64'] & M40
+            found = True
+            disabled = (ttbcr >> 7) & 1                 # EPD0
+            startbit = 31 - t0
+        if (t1 == 0 and not found) or (t1 > 0 and (ia >> (32 - t1)) == (1 << t1) - 1):
+            level = 1 if t1 < 2 else 2
+            lb = 9 * level - t1 - 4
+            ttbr = s['ttbr1_64'] & M40
+            found = True
+            disabled = (ttbcr >> 23) & 1                # EPD1
+            startbit = 31 - t1
+    if not found or disabled:
+        raise RefAbort('translation', ia, iswrite, level=1, domain=None, ld=True)
+    if (ttbr & ((1 << lb) - 1)) >> 3:
+        raise RefUnpredictable('TTBR bits below the table alignment are not zero')
+    base = (ttbr >> lb) << lb
+    if cpu.have_virt() and not cpu.is_secure() and not hyp and (s['hcr'] & 1):
+        raise RefNotModelled('stage-2 translation of table walks')
+    big = ((s['hsctlr'] >> 25) & 1) if hyp else cpu.sctlr(25)
+    table_rw, table_user, table_xn, table_pxn = True, True, False, False
+    first = True
+    while True:
+        offset = 9 * level
+        lo_bit = 39 - offset
+        hi_bit = startbit if first else 47 - offset
+        first = False
+        index = (ia >> lo_bit) & ((1 << (hi_bit - lo_bit + 1)) - 1)
+        desc = cpu.phys_read(base | (index << 3), 8)
+        if big:
+            desc = B.BigEndianReverse(desc, 8)
+        if not desc & 1:
+            raise RefAbort('translation', ia, iswrite, level=level, domain=None, ld=True)
+        if not desc & 2:
+            if level == 3:
+                raise RefAbort('translation', ia, iswrite, level=3, domain=None, ld=True)
+            break                                        # block
+        if level == 3:
+            break                                        # page
+        base = ((desc >> 12) & ((1 << 28) - 1)) << 12
+        lookup_secure = lookup_secure and not (desc >> 63) & 1
+        table_rw = table_rw and not (desc >> 62) & 1
+        table_user = table_user and not (desc >> 61) & 1
+        table_xn = table_xn or bool((desc >> 60) & 1)
+        table_pxn = table_pxn or bool((desc >> 59) & 1)
+        level += 1
+    ialen = 39 - 9 * level
+    pa = (((desc & M40) >> ialen) << ialen) | (ia & ((1 << ialen) - 1))
+    ap21 = (desc >> 6) & 3
+    ng = (desc >> 11) & 1
+    pxn = (desc >> 53) & 1
+    if not table_rw:
+        ap21 |= 2
+    if not table_user:
+        ap21 &= ~1
+    if cpu.is_secure() and not lookup_secure:
+        ng = 1
+    if not (desc >> 10) & 1:
+        raise RefAbort('accessflag', ia, iswrite, level=level, domain=None, ld=True)
+    if hyp and (not ap21 & 1 or not table_user or pxn or table_pxn or ng):
+        raise RefUnpredictable('Hyp-mode stage-1 descriptor with AP[1] == 0, APTable[0], PXN, PXNTable or nG set')
+    return dict(pa=pa, level=level, ap=(ap21 << 1) | 1, memtype=mem_type_from_mair(cpu, (desc >> 2) & 7, hyp))
+
+
 def translate_v(cpu, va, ispriv, iswrite, size, wasaligned):
     s = cpu.s
     # FCSE
@@ -187,10 +297,22 @@ def translate_v(cpu, va, ispriv, iswrite, size, wasaligned):
         if cpu.have_virt() and not cpu.is_secure() and not ishyp and (s['hcr'] & 1):
             raise RefNotModelled('stage-2 translation')
         return mva
-    if ishyp or (s['ttbcr'] >> 31) & 1:
-        raise RefNotModelled('long-descriptor translation')
     if cpu.have_virt() and not cpu.is_secure() and not ishyp and (s['hcr'] >> 27) & 1:
         raise RefUnpredictable('HCR.TGE with the MMU enabled')
+    if ishyp or (cpu.cfg['have_lpae'] and (s['ttbcr'] >> 31) & 1):
+        r = walk_ld_s1(cpu, mva, iswrite)
+        if not wasaligned and r['memtype'] != 'normal':
+            if not cpu.have_virt():
+                raise RefUnpredictable('unaligned access to Device/Strongly-ordered memory')
+            raise RefAbort('alignment', mva, iswrite, tohyp=ishyp, ld=True)
+        try:
+            check_permission(cpu, r['ap'], mva, r['level'], None, iswrite, ispriv, 'VMSA')
+        except RefAbort as ab:
+            ab.info['ld'] = True
+            raise
+        if cpu.have_virt() and not cpu.is_secure() and not ishyp and (s['hcr'] & 1):
+            raise RefNotModelled('stage-2 translation')
+        return r['pa']
     r = walk_sd(cpu, mva, iswrite)
     memtype = mem_type_from_texcb(cpu, r['texcb'], r['s'])
     if not wasaligned and memtype != 'normal':
@@ -225,6 +347,8 @@ def abort_bookkeeping(cpu, ab):
     tge = (s['hcr'] >> 27) & 1
     if msa == 'VMSA' and ab.kind == 'alignment':
         tohyp = cpu.mode == M_HYP or (cpu.have_virt() and tge == 1)
+    elif msa == 'VMSA':
+        tohyp = cpu.mode == M_HYP                      # stage-1 faults of the Hyp-mode regime
     else:
         tohyp = False
     if tohyp:
@@ -237,6 +361,14 @@ def abort_bookkeeping(cpu, ab):
     if msa == 'PMSA':
         fs = FS_PMSA[ab.kind]
         string = (wnr << 11) | ((fs >> 4) << 10) | (fs & 0xF)
+    elif ab.info.get('ld') or (ab.kind == 'alignment' and cpu.cfg['have_lpae'] and (s['ttbcr'] >> 31) & 1):
+        # long-descriptor DFSR format (B4.1.52): LPAE bit, STATUS<5:0>; bits 10 and 8:6 are UNKNOWN
+        level = ab.info.get('level') or 0
+        status = {'translation': 0b000100 | level, 'accessflag': 0b001000 | level, 'permission': 0b001100 | level,
+                  'alignment': 0b100001}[ab.kind]
+        s['dfsr'] = (s['dfsr'] & ~0x3FFF) | (wnr << 11) | (1 << 9) | status
+        cpu.unknown_bits['dfsr'] = cpu.unknown_bits.get('dfsr', 0) | (1 << 10) | (7 << 6)
+        return
     else:
         level = ab.info.get('level') or 0
         fs = FS_SHORT[(ab.kind, level)]
